@@ -125,7 +125,7 @@ def run_case(case, probe=None):
         nonlocal before
         chunk = case.streams[ci][pos[ci]:pos[ci] + n]
         pos[ci] += n
-        r = fe.feed(conns[ci], chunk)
+        r = D.safe_feed(fe, conns[ci], chunk)
         after = D.dump_units(blocks)
         chg, ext = D.diff_units(before, after)
         before = after
@@ -640,11 +640,14 @@ def run(prop, tier):
                 e["writes"] = e["writes"] + [copy.deepcopy(e["writes"][0])]
             muts.append(m)
     if not muts:
-        raise MachineryError("self-test: no accepted trace with a response")
-    sv, _ = validate_traces(module, module + ".cfg", muts, shards=1)
-    if sv["st"]["status"] != "FAIL":
-        raise MachineryError("self-test: corrupted trace accepted")
-    rep.notes["self_test"] = sv["st"]["clauses"]
+        if not rep.violations:
+            raise MachineryError("self-test: no accepted trace with a response")
+        rep.notes["self_test"] = "skipped: no accepted trace in this run (violations are reported)"
+    else:
+        sv, _ = validate_traces(module, module + ".cfg", muts, shards=1)
+        if sv["st"]["status"] != "FAIL":
+            raise MachineryError("self-test: corrupted trace accepted")
+        rep.notes["self_test"] = sv["st"]["clauses"]
     for t in ok[:2]:
         if prop == "C17":
             rep.sample({"id": t["id"], "mode": t["mode"], "kind": t["kind"], "front_ends": [r["fe"] for r in t["runs"]],
